@@ -5,7 +5,7 @@ import gen
 NAMECH = 'ABCDEFGHIJKLMNOPQRSTUVWXYZabcdefghijklmnopqrstuvwxyz0123456789_.|-'
 
 def gen_names(rng, n):
-    style = rng.choice(['short', 'len2', 'mid', 'long200', 'punct', 'prefix', 'mixed'])
+    style = rng.choice(['short', 'len2', 'mid', 'long200', 'punct', 'prefix', 'mixed', 'marker'])
     out = []
     for i in range(n):
         if style == 'short':
@@ -18,6 +18,9 @@ def gen_names(rng, n):
             nm = ('%03d' % i) + gen.rand_seq(rng, NAMECH, 197)
         elif style == 'punct':
             nm = ['-', '...', '|_|', '_', '.-.', '||', '-_-', '._|', '--', '|'][i % 10] + ('' if i < 10 else str(i))
+        elif style == 'marker':     # the words the format sniffer and the header parsers look for, inside names
+            nm = ['CLUSTALW_ref_%d', 'my_CLUSTAL.run_%d', 'CLUSTAL_O_%d', 'PileUp.MSF_%d', 'MSF-%d', 'multiple_sequence_alignment_%d',
+                  'Name_%d', 'Len_%d', 'AA_MULTIPLE_ALIGNMENT_%d', 'Check_%d..'][(i * 3 + rng.below(10)) % 10] % i
         elif style == 'prefix':
             nm = 'p' + 'q' * i
         else:
